@@ -130,6 +130,11 @@ class Interpreter(BaseInterpreter[TContext, TEvent]):
             Union[Event, AfterEvent, DoneEvent]
         ] = asyncio.Queue()
         self._event_loop_task: Optional[asyncio.Task[None]] = None
+        #: Set once `start()` has entered and settled the initial
+        #: configuration. The consumer loop waits for it, so an event that is
+        #: already queued - or arrives while an entry action awaits - is not
+        #: processed in the middle of the initial entry.
+        self._initial_entry_done: asyncio.Event = asyncio.Event()
         #: Length of the current self-raised event chain. Incremented when an
         #: action enqueues onto our own queue *during* processing, reset when
         #: a macrostep completes without having done so. Bounds a runaway
@@ -198,6 +203,7 @@ class Interpreter(BaseInterpreter[TContext, TEvent]):
         ):
             logger.info("♻️ Resuming restored interpreter '%s'...", self.id)
             if self.status == "running":
+                self._initial_entry_done.set()
                 self._event_loop_task = asyncio.create_task(
                     self._run_event_loop()
                 )
@@ -253,6 +259,8 @@ class Interpreter(BaseInterpreter[TContext, TEvent]):
             # unrelated event happened to nudge it. `start()` must return a
             # settled configuration in BOTH engines.
             await self._settle_transient_transitions()
+            # 🚦 Only now may the consumer loop start taking events.
+            self._initial_entry_done.set()
 
             logger.info(
                 "✅ Interpreter '%s' started successfully. Current states: %s",
@@ -422,6 +430,8 @@ class Interpreter(BaseInterpreter[TContext, TEvent]):
         #    any volume is never throttled.
         limit = getattr(self.machine, "max_iterations", 1000)
         try:
+            # 🚦 Do not consume anything until the initial entry has settled.
+            await self._initial_entry_done.wait()
             while self.status == "running":
                 # 📬 Wait indefinitely for the next event from the queue.
                 event = await self._event_queue.get()
